@@ -58,13 +58,73 @@ def prove_le(facts, a, b, strict=False, depth=4):
     return _le(fx, expand(a, defs), expand(b, defs), strict, depth)
 
 
+def upper_const(fx, t, depth=3):
+    """Smallest constant c with t <= c derivable from the facts (None if unknown)."""
+    if t[0] == "const":
+        return t[1]
+    best = None
+
+    def upd(c):
+        nonlocal best
+        if c is not None and (best is None or c < best):
+            best = c
+    for f in fx:
+        if f[0] == "<=" and f[1] == t and f[2][0] == "const":
+            upd(f[2][1])
+        elif f[0] == "<" and f[1] == t and f[2][0] == "const":
+            upd(f[2][1] - 1)
+        elif f[0] == "==" and depth > 0:
+            if f[1] == t and f[2] != t:
+                upd(upper_const(fx - {f}, f[2], depth - 1))
+            elif f[2] == t and f[1] != t:
+                upd(upper_const(fx - {f}, f[1], depth - 1))
+    if t[0] == "op" and depth > 0:
+        if t[1] == "/" and t[3][0] == "const" and t[3][1] > 0:
+            u = upper_const(fx, t[2], depth - 1)
+            if u is not None:
+                upd(u // t[3][1])
+        elif t[1] == "&":
+            for x in (t[2], t[3]):
+                if x[0] == "const":
+                    upd(x[1])
+        elif t[1] == ">>" and t[3][0] == "const":
+            u = upper_const(fx, t[2], depth - 1)
+            if u is not None:
+                upd(u >> t[3][1])
+    return best
+
+
+def prove_fact(facts, f):
+    """facts |- f for a normalised comparison fact f."""
+    if f[0] == "<":
+        return prove_le(facts, f[1], f[2], strict=True)
+    if f[0] == "<=":
+        return prove_le(facts, f[1], f[2])
+    if f[0] == "==":
+        return prove_le(facts, f[1], f[2]) and prove_le(facts, f[2], f[1])
+    return f in facts
+
+
+def _nonneg(t):
+    """Terms that are unsigned quantities by construction (container sizes, sizeof)."""
+    return t[0] in ("size", "sizeof", "max_size")
+
+
 def _le(fx, a, b, strict, depth):
     if a == b:
         return not strict
+    if not strict and _nonneg(b):
+        u = upper_const(fx, a)
+        if u is not None and u <= 0:
+            return True
     if a[0] == "const" and b[0] == "const":
         return a[1] < b[1] if strict else a[1] <= b[1]
     if ("<", a, b) in fx:
         return True
+    # T - c < T  (c > 0) provided c <= T, i.e. the subtraction does not wrap
+    if a[0] == "op" and a[1] == "-" and a[2] == b and a[3][0] == "const" and a[3][1] > 0 and depth > 0:
+        if _le(fx, ("const", a[3][1] - 1), b, True, depth - 1) or _le(fx, a[3], b, False, depth - 1):
+            return True
     if not strict and (("<=", a, b) in fx or norm_cmp("==", a, b) in fx):
         return True
     if depth <= 0:
